@@ -54,8 +54,18 @@ def rule_composition(chk, db, cfgname, tab, rid):
                                 if x.get('i') is not None and (ff['key'], x['i']) in seen_products:
                                     continue
                                 seen_products.add((ff['key'], x.get('i')))
-                                lp = norm(T.pstr(T.strip_copy(l)))
-                                rp = norm(T.pstr(T.strip_copy(rs['args'][0])))
+                                def resolve(nd):
+                                    # a local that is a const alias/copy of a member access stands for that access
+                                    nd = T.strip_copy(nd)
+                                    if nd.get('k') == 'var' and nd.get('s') == 'l':
+                                        defs = [v['init'] for bb in ff['blocks'] for ee in bb['ev']
+                                                if ee.get('k') == 'decl' for v in ee['vars']
+                                                if v['n'] == nd['n'] and v.get('init') is not None]
+                                        if len(defs) == 1 and T.strip_copy(defs[0]).get('k') == 'mem':
+                                            return T.strip_copy(defs[0])
+                                    return nd
+                                lp = norm(T.pstr(resolve(l)))
+                                rp = norm(T.pstr(resolve(rs['args'][0])))
                                 if site['right'] != rp and site['left'] != lp and \
                                         not (site['right'] == lp and site['left'] == rp):
                                     continue
@@ -451,6 +461,94 @@ def rule_coindexed(chk, db, cfgname, rid):
     chk.count(rid.lower() + '.coindexed_operations', n)
 
 
+def rule_dtor(chk, db, cfgname, rid):
+    chk.rule(rid, 'CsgOpNode::~CsgOpNode empties a children vector only while it is the sole holder of that vector: every '
+             'use of the payload of Y.impl_ (through its guard) is control-dependent on Y.impl_.UseCount() == 1 - '
+             'CsgOpNode::Transform makes nodes that share one children vector, so holding the last reference to a node '
+             'is not enough')
+    fs = [f for f in db.functions.values() if f.get('blocks') and f.get('kind') == 'dtor' and
+          f.get('cls') == 'manifold::CsgOpNode']
+    if len(fs) != 1:
+        raise AnalysisBroken('%s: CsgOpNode destructor not found' % rid)
+    f = fs[0]
+    g = C.Cfg(f)
+    guards = {}
+    for b in f['blocks']:
+        for e in b['ev']:
+            if e.get('k') == 'decl':
+                for v in e['vars']:
+                    i = T.strip_copy(v['init']) if v.get('init') is not None else None
+                    if i is not None and i.get('k') == 'call' and T.short(i.get('fn', '')) == 'GetGuard' and \
+                            i.get('recv') is not None:
+                        guards[v['n']] = norm(T.pstr(T.strip(i['recv'])))
+    n = 0
+    for b in f['blocks']:
+        for e in b['ev']:
+            if e.get('k') != 'call' or e.get('recv') is not None and T.short(e.get('fn', '')) == 'GetGuard':
+                continue
+            used = [y['n'] for a in e.get('args', []) for y in T.walk(a)
+                    if isinstance(y, dict) and y.get('k') == 'var' and y.get('n') in guards]
+            for gv in used:
+                n += 1
+                owner = guards[gv]
+                seen, work, ok = set(), [b['id']], False
+                while work:
+                    y = work.pop()
+                    for d, k in g.control_deps(y):
+                        if (d, k) in seen:
+                            continue
+                        seen.add((d, k))
+                        work.append(d)
+                        cond, _ = C.branch_cond(g.blocks[d])
+                        if cond is not None and k == 0 and 'UseCount' in T.pstr(cond) and \
+                                norm(T.pstr(cond)).find(owner + '.UseCount()') >= 0 and '== 1' in T.pstr(cond):
+                            ok = True
+                chk.obligation(ok, {'function': f['name'], 'line': e.get('ln'), 'payload of': owner,
+                                    'under %s.UseCount() == 1' % owner: ok})
+                if not ok:
+                    chk.violation(rid, f, 'children of %s emptied without UseCount test' % owner,
+                                  'the destructor moves the children out of %s without testing %s.UseCount() == 1: a '
+                                  'node made by Transform() that shares this vector is left with no operands and '
+                                  'evaluates to the empty solid (or crashes)' % (owner, owner), line=e.get('ln'),
+                                  cfg=cfgname)
+    chk.count(rid.lower() + '.payload_uses', n)
+
+
+def rule_no_silent_drop(chk, db, cfgname, rid):
+    chk.rule(rid, 'the evaluator never filters operands out of a reduction by a predicate that ignores their status: an '
+             'errored or cancelled operand is an EMPTY Impl carrying status_, so "drop empty operands" before Compose / '
+             'Boolean3 makes every later status test unreachable')
+    n = 0
+    for f in db.functions.values():
+        if not f.get('blocks') or f['file'] != 'src/csg_tree.cpp':
+            continue
+        for b in f['blocks']:
+            for e in b['ev']:
+                if e.get('k') == 'call' and T.short(e.get('fn', '')) in ('remove_if', 'erase_if', 'partition',
+                                                                        'stable_partition', 'copy_if'):
+                    lam = [x for x in T.walk(e) if isinstance(x, dict) and x.get('k') == 'lambda' and
+                           x.get('fk') in db.functions]
+                    if not lam:
+                        continue
+                    body = db.functions[lam[0]['fk']]
+                    ptypes = [db.T(body, p['t']).get('c') or '' for p in body['params']]
+                    if not any('CsgLeafNode' in t or 'Manifold' in t or 'CsgNode' in t for t in ptypes):
+                        continue
+                    n += 1
+                    looks = any(isinstance(y, dict) and ((y.get('k') == 'mem' and y.get('n') == 'status_') or
+                                                         (y.get('k') == 'call' and T.short(y.get('fn', '')) in
+                                                          ('Status', 'GetStatus')))
+                                for bb in body['blocks'] for ee in bb['ev'] for y in T.walk(ee))
+                    chk.obligation(looks, {'function': f['name'][:60], 'line': e.get('ln'), 'filter': T.short(e['fn']),
+                                           'predicate looks at status': looks})
+                    if not looks:
+                        chk.violation(rid, f, 'operands filtered by %s without a status test' % T.short(e['fn']),
+                                      'operands are removed from the reduction by a predicate that never looks at '
+                                      'their status: an operand that failed (empty, with status_ set) disappears and '
+                                      'the result reports NoError', line=e.get('ln'), cfg=cfgname)
+    chk.count(rid.lower() + '.operand_filters', n)
+
+
 def main(chk, tier):
     import db as D
     configs = ['seq', 'par'] if tier == 'quick' else ['seq', 'par', 'seq-debug']
@@ -468,10 +566,13 @@ def main(chk, tier):
         rule_protocol(chk, db, cfgname, 'C03.5')
         rule_cache_identity(chk, db, cfgname, 'C03.6')
         rule_coindexed(chk, db, cfgname, 'C03.7')
+        rule_dtor(chk, db, cfgname, 'C03.8')
+        rule_no_silent_drop(chk, db, cfgname, 'C03.9')
     n = len(configs)
     chk.floor('c03.1.products', 6 * n)
     chk.floor('c03.4.reorder_events', 3 * n)
     chk.floor('c03.6.opnode_sites', 1 * n)
+    chk.floor('c03.8.payload_uses', 2 * n)
     return chk.finish(
         'Operand-provenance lints over the CSG evaluator: transform composition order at the six product sites, '
         'transform-independence of what is stored into the shared operand vector, status tests in the three '
